@@ -88,6 +88,10 @@ def run(ctx):
         cases += sp.sample(ctx.rng, budget // len(spaces))
     ctx.cov["space"] = {sp.name: sp.size for sp in spaces}
     shared.run_reduce_and_validate(ctx, cases, tag="c05")
+    from . import compose
+
+    # Flox.tla behaviours with requested labels (given unsorted): one slot per requested label, in the contract's order
+    compose.replay(ctx, {"compose:labels"}, n=800 if ctx.tier == "quick" else 20000, only=lambda b: b["cfg"]["hasExpected"])
     ctx.cov["rule"] = ("(labels over 3 tokens + missing, expected_groups in {subset, superset, disjoint, unsorted}, sort, fill in {NaN,0,-1,1000,False,None-if-all-present}, "
                        "min_count in {None,0,1,2,9}, 23 reductions, 4 engine settings, eager | method x chunking, int/str/float labels); "
                        "non-trivial = group with >=2 members or a special value")
